@@ -81,9 +81,10 @@ theorem snaTail_lt (n p : Nat) (hp : p ∈ Spec.snaTail n) : p < 8 := by
 theorem abs_refresh (m : Machine) : Spec.abs m.refresh = Spec.abs m := by
   obtain ⟨f1, f2, f3, f4, f5, f6, _, _, _, f10⟩ := refresh_same m
   have hay : m.refresh.ayRegs = m.ayRegs ∧ m.refresh.aySel = m.aySel ∧ m.refresh.ayChip = m.ayChip ∧
-      m.refresh.ayEnabled = m.ayEnabled ∧ m.refresh.mouse = m.mouse := by
-    unfold Machine.refresh; split <;> exact ⟨rfl, rfl, rfl, rfl, rfl⟩
-  simp only [Spec.abs, f1, f2, f3, f4, f5, f6, f10, hay.1, hay.2.1, hay.2.2.1, hay.2.2.2.1, hay.2.2.2.2]
+      m.refresh.ayEnabled = m.ayEnabled ∧ m.refresh.mouse = m.mouse ∧ m.refresh.ayEnvAtStart = m.ayEnvAtStart := by
+    unfold Machine.refresh; split <;> exact ⟨rfl, rfl, rfl, rfl, rfl, rfl⟩
+  simp only [Spec.abs, f1, f2, f3, f4, f5, f6, f10, hay.1, hay.2.1, hay.2.2.1, hay.2.2.2.1, hay.2.2.2.2.1,
+    hay.2.2.2.2.2]
 
 /-- the header part of `snaLoad` spelled out: the receiver with the 27 header bytes applied -/
 def hdrApplied (f : Bytes) (r : Machine) : Machine :=
@@ -126,18 +127,18 @@ theorem abs_after_header_128 (f : Bytes) (r : Machine) (hk : r.kind = .k128) (pc
   generalize hm0 : ({ (hdrApplied f r) with cpu := { (hdrApplied f r).cpu with pc := pc } } : Machine) = m0
   have hk0 : m0.kind = .k128 := by subst hm0; exact hk
   obtain ⟨c1, c2, c3, c4, _, _⟩ := restore7ffd_same Fixes.all m0 latch
-  obtain ⟨q1, q2, q3, q4, q5⟩ := restore7ffd_rest Fixes.all m0 latch
+  obtain ⟨q1, q2, q3, q4, q5, q6⟩ := restore7ffd_rest Fixes.all m0 latch
   obtain ⟨p1, _, _, _, p5⟩ := restore7ffd_paging Fixes.all m0 latch hk0 (Or.inl rfl)
   have hkind := restore7ffd_kind Fixes.all m0 latch
   have hregs : Spec.absRegs m0.cpu = Spec.snaRegs f pc := by subst hm0; exact absRegs_hdr f r pc
   have hrest : m0.cpu.halted = r.cpu.halted ∧ m0.cpu.skipInt = r.cpu.skipInt ∧ m0.cpu.pfx = r.cpu.pfx ∧
       m0.border = f.getD 26 0 &&& 7 ∧ m0.borderDev = f.getD 26 0 &&& 7 ∧ m0.ram = r.ram ∧
       m0.ayEnabled = r.ayEnabled ∧ m0.ayRegs = r.ayRegs ∧ m0.aySel = r.aySel ∧ m0.ayChip = r.ayChip ∧
-      m0.mouse = r.mouse := by
-    subst hm0; exact ⟨rfl, rfl, rfl, rfl, rfl, rfl, rfl, rfl, rfl, rfl, rfl⟩
-  obtain ⟨r1, r2, r3, r4, r5, r6, r7, r8, r9, r10, r11⟩ := hrest
-  simp only [Spec.abs, c1, c2, c3, c4, q1, q2, q3, q4, q5, p1, p5, hkind, hk0, hk, hregs, r1, r2, r3, r4, r5, r6, r7,
-    r8, r9, r10, r11]
+      m0.mouse = r.mouse ∧ m0.ayEnvAtStart = r.ayEnvAtStart := by
+    subst hm0; exact ⟨rfl, rfl, rfl, rfl, rfl, rfl, rfl, rfl, rfl, rfl, rfl, rfl⟩
+  obtain ⟨r1, r2, r3, r4, r5, r6, r7, r8, r9, r10, r11, r12⟩ := hrest
+  simp only [Spec.abs, c1, c2, c3, c4, q1, q2, q3, q4, q5, q6, p1, p5, hkind, hk0, hk, hregs, r1, r2, r3, r4, r5, r6, r7,
+    r8, r9, r10, r11, r12]
   simp
   by_cases h : latch &&& 32#8 = 0#8 <;> simp [h]
 
@@ -412,5 +413,64 @@ theorem abs_pushPc_pages (s : Machine) (hk : s.kind = .k48) :
   rw [h2]
   unfold Spec.pushed48
   exact poke_page_congr _ _ h1 hk1 (by rw [poke_model]; exact hk) _ _
+
+/-! ### after a refresh every screen cache equals RAM -/
+
+theorem refresh_display (m : Machine) (b : Nat) (hb : m.refresh.displayable b = true) :
+    m.refresh.scr b = m.refresh.ram b := by
+  have hk : m.refresh.kind = m.kind := (refresh_same m).2.2.2.2.2.2.2.2.2
+  rw [(refresh_same m).2.2.2.1]
+  unfold Machine.displayable at hb
+  rw [hk] at hb
+  cases hkk : m.kind with
+  | k48 =>
+    rw [hkk] at hb
+    have : b = 0 := by simpa using hb
+    subst this; exact refresh_scr48 m hkk
+  | k128 =>
+    rw [hkk] at hb
+    simp only [Bool.or_eq_true, beq_iff_eq] at hb
+    rcases hb with h | h <;> subst h
+    · exact (refresh_scr128 m hkk).1
+    · exact (refresh_scr128 m hkk).2
+
+/-- every successful `snaLoad` ends with a refresh -/
+theorem snaLoad_is_refresh (fx : Fixes) (f : Bytes) (r m : Machine) (h : snaLoad fx f r = .ok m) :
+    ∃ m0 : Machine, m = m0.refresh := by
+  unfold snaLoad at h
+  simp only at h
+  split at h
+  · cases h
+  split at h
+  · cases h
+  split at h
+  · cases h
+  split at h
+  · unfold snaLoad128 at h
+    split at h
+    · cases h
+    · obtain ⟨m3, _, h⟩ := bind_ok _ _ _ h
+      obtain ⟨m4, _, h⟩ := bind_ok _ _ _ h
+      cases h; exact ⟨m4, rfl⟩
+  · unfold snaLoad48 at h
+    obtain ⟨m3, _, h⟩ := bind_ok _ _ _ h
+    cases h; exact ⟨m3.popPc, rfl⟩
+
+/-- every successful `szxLoad` ends with a refresh -/
+theorem szxLoad_is_refresh (fx : Fixes) (inflate : Bytes → Option Bytes) (f : Bytes) (r m : Machine)
+    (h : szxLoad fx inflate f r = .ok m) : ∃ m0 : Machine, m = m0.refresh := by
+  unfold szxLoad at h
+  split at h
+  · cases h
+  split at h
+  · cases h
+  simp only at h
+  split at h
+  · cases h
+  split at h
+  · cases h
+  split at h
+  · cases h
+  · next m1 _ => cases h; exact ⟨m1, rfl⟩
 
 end ZxVerif.Snap
